@@ -102,6 +102,10 @@ FIXED = [
     # only the client's receiver idle timer (armed when the stream is created) can end the stream
     line(28, req=4, resp=1000, sop="stall"),
     line(29, req=100000, resp=1000, sop="stall", drop=100, dup=50, reorder=100, faults_ms=200),
+    # … and the stalled peer also vanishes after it acknowledged the request: the client's sender half is done,
+    # nothing will ever arrive, the receiver's own idle timer is the only thing left
+    line(30, req=4, resp=1000, sop="stall", vanish_us=5000),
+    line(31, req=50000, resp=1000, sop="stall", vanish_us=20000, cop="concurrent"),
     # TCP
     line(19, proto="tcp", req=100000, resp=100000),
     line(20, proto="tcp", req=1, resp=1 << 20, wchunk=1000, rchunk=100, mtu=1250),
@@ -156,6 +160,8 @@ def _random(rng, tier):
         kw["faults_ms"] = rng.choice([5, 50, 500, 2000, 5000])
     if sop == "vanish":
         kw["vanish_us"] = rng.choice([100, 300, 700, 1200, 2500, 4000, 10000])
+    if sop == "stall" and rng.random() < 0.6:
+        kw["vanish_us"] = rng.choice([2000, 5000, 20000, 100000])
     return line(seed, **kw)
 
 
